@@ -42,6 +42,11 @@ def dist_specs(draw, kinds=KINDS, min_events=1, max_events=6, normalised=None, p
         w[draw(st.integers(0, k - 1))] = 1
     norm = draw(st.booleans()) if normalised is None else normalised
     den = sum(w) if (norm and sum(w) > 0) else draw(st.sampled_from([1, 3, 7, 10]))
+    if normalised is None and sum(w) > 0 and max(w) <= 5 and draw(st.integers(0, 5)) == 0:
+        # total mass within ~1e-5 / 1e-9 of 1 but not 1
+        scale = draw(st.sampled_from([10 ** 5, 10 ** 9]))
+        w = [x * scale for x in w]
+        den = sum(w) + draw(st.sampled_from([-3, -1, 1, 2]))
     return {"kind": kind, "events": events, "w": w, "den": den}
 
 
@@ -420,10 +425,10 @@ def prop_sampling(case, ctx):
 
 
 PROPS = [
-    Prop("ops", lambda tier: op_cases(tier), prop_ops, quick=4000, thorough=80000,
+    Prop("ops", lambda tier: op_cases(tier), prop_ops, quick=4000, thorough=240000,
          doc="each operation of the calculus on one or two generated distributions vs exact Fractions"),
-    Prop("pipeline", lambda tier: pipeline_cases(tier), prop_pipeline, quick=2500, thorough=50000,
+    Prop("pipeline", lambda tier: pipeline_cases(tier), prop_pipeline, quick=2500, thorough=150000,
          doc="generated operation sequences, msdm object and Fraction twin advanced in lock-step"),
-    Prop("sampling", lambda tier: sampling_cases(tier), prop_sampling, quick=2500, thorough=50000,
+    Prop("sampling", lambda tier: sampling_cases(tier), prop_sampling, quick=2500, thorough=150000,
          doc="sampling with harness-owned random streams and seeds"),
 ]
